@@ -462,6 +462,15 @@ func (in *Interp) mapValRangeAxiom(val Term, elem types.Type) {
 // havocCell gives the cell a fresh content in st.
 func (in *Interp) havocCell(st *State, c *Cell, f *Frame) {
 	if c.Typ == nil && c.Kind == CVar {
+		switch x := st.store[c].(type) {
+		case BatchV:
+			st.store[c] = in.havocBatch(x)
+			return
+		case IterV:
+			x.Cur = in.D.fresh("itkey", SStr)
+			st.store[c] = x
+			return
+		}
 		if sc, ok := st.store[c].(Sc); ok {
 			st.store[c] = Sc{in.D.fresh(c.Name, sc.T.Sort)}
 			return
